@@ -22,6 +22,7 @@ class C27(Monitor):
         self.frames = {'c': 0, 's': 0}
         self.maxes = {'streams': 0, 'closed': 0, 'hdrbuf': 0, 'inbuf': 0}
         self.after_close = {}
+        self.pile = {}
 
     def on_step(self, w, s):
         e = w.eps[s.ep]
@@ -54,6 +55,7 @@ class C27(Monitor):
             self.probe('unmeasurable_streams')
             return
         self.maxes['streams'] = max(self.maxes['streams'], len(streams))
+        self._pile_up(w, e, s, len(streams))
         # a closed connection refuses every frame and call before it creates anything
         st_name = getattr(_get(conn, 'state_machine.state'), 'name', None)
         was = self.after_close.get(s.ep)
@@ -72,6 +74,37 @@ class C27(Monitor):
             if len(streams) != live:
                 self.fail('retained-streams', 'stream table size differs from the number of live streams after clean-up', s,
                           table=len(streams), live=live, frames=self.frames[s.ep])
+
+    def _pile_up(self, w, e, s, table):
+        """Closed streams may stay in the table until the next clean-up, and every registration of a new stream is a
+        clean-up (sending or receiving HEADERS that open one, receiving a PUSH_PROMISE, reading open_*_streams).  So
+        the table never holds more than the live streams plus the streams that closed since the last such moment."""
+        trk = e.trk
+        ep = s.ep
+        st = self.pile.setdefault(ep, {'closes_at_gc': trk.close_counter, 'seen': set(trk.streams), 'cc': trk.close_counter})
+        before = st['cc']           # closures up to the previous step of this endpoint
+        st['cc'] = trk.close_counter
+        new = [sid for sid in trk.streams if sid not in st['seen']]
+        st['seen'].update(new)
+        gc = False
+        if s.kind == 'call' and s.ok and s.op in ('open_inbound_streams', 'open_outbound_streams'):
+            gc = True
+        elif s.ok and new and s.kind == 'recv' and any(ev['t'] in ('RequestReceived', 'PushedStreamReceived') for ev in (s.events or ())):
+            gc = True
+        elif s.kind == 'call' and s.ok and s.op == 'send_headers' and new and e.client:
+            gc = True
+        if trk.dead:
+            return
+        live = sum(1 for x in trk.streams.values() if x.state != 'closed')
+        # closures during this very step may have happened after its clean-up
+        bound = live + (trk.close_counter - st['closes_at_gc'])
+        if table > bound + 1:
+            self.probe('pile_up_checked')
+            self.fail('closed-streams-pile-up', 'the stream table holds more closed streams than have closed since the last clean-up opportunity', s,
+                      table=table, live=live, closed_since=trk.close_counter - st['closes_at_gc'], frames=self.frames[ep])
+        if gc:
+            st['closes_at_gc'] = before      # (streams that closed in this very step may have closed after its clean-up)
+            self.probe('cleanup_opportunity')
 
     def _limits(self, w, e, s):
         """over-long CONTINUATION chains and oversize header lists must be refused"""
